@@ -120,6 +120,7 @@ func NewExplorer(prog *ssa.Program, h *ssa.Function) *Explorer {
 	registerFactomNatives(ex)
 	registerBlobs(ex)
 	registerSnapshots(ex)
+	registerSigModel(ex)
 	return ex
 }
 
@@ -440,6 +441,9 @@ func (in *Interp) reportViolation(id, note string, neg *sym.Term) {
 
 func (in *Interp) collectWitness() {
 	ex := in.Ex
+	if in.constViolated {
+		return // every input of this path violates an assertion: not a witness
+	}
 	need := false
 	ex.mu.Lock()
 	for _, c := range in.Res.Covers {
